@@ -190,3 +190,44 @@ def no_skip(c, facts, rule):
         c.bad(R, 'lexer-skips-input', 'the token enum carries a logos skip: %s - the matched bytes are dropped without a token or an error, so tokens and errors no longer tile the text' % bad[0][:80], attributes=len(attrs))
     else:
         c.ok(R, {'attributes': len(attrs), 'skip': 'none'})
+
+
+def no_crlf_split(c, facts, rule, bound=4, trivia=('Space', 'CommentLine', 'CommentBlock')):
+    """no token of the tree ends between the CR and the LF of a line ending: the position of such an offset is past the end
+    of its line for the client (which clamps it), so the range sent for the token's span does not select the span's text
+    and does not convert back. Decided on the token patterns, exhaustively over short strings: whenever a token can end
+    in CR, the same token followed by LF is a (longer) match of the same pattern - logos takes the longest."""
+    import itertools
+    R = c.rule(rule, 'NO-CRLF-SPLIT: a token that can end with a carriage return also matches with the line feed that follows (all strings up to %d characters over each pattern\'s own alphabet)' % bound)
+    pats, subs = token_patterns(facts)
+    n = 0
+    for kind, plist in sorted(pats.items()):
+        if kind in trivia:
+            continue        # never a leaf of the tree, never the end of a reported span
+        for typ, pat in plist:
+            if typ != 'regex':
+                if pat.endswith('\r'):
+                    c.bad(R, 'token-ends-in-cr:' + kind, 'the fixed token %s ends with a carriage return' % kind)
+                continue
+            try:
+                rx = re.compile(to_python(pat, subs), re.S)
+            except re.error:
+                c.skip(R, kind, 'pattern not readable as a Python regular expression')
+                continue
+            lits = [ch for ch in dict.fromkeys(re.sub(r'\\.', '', pat)) if ch.isprintable() and ch not in '[]()*+?|^\\{}.']
+            alpha = (lits[:5] + ['a', '\r', '\n'])
+            n += 1
+            witness = None
+            for k in range(0, bound):
+                for tup in itertools.product(alpha, repeat=k):
+                    t = ''.join(tup) + '\r'
+                    if rx.fullmatch(t) and not rx.fullmatch(t + '\n'):
+                        witness = t
+                        break
+                if witness:
+                    break
+            if witness:
+                c.bad(R, 'token-splits-crlf:' + kind, 'the pattern of %s matches %r but not %r: in a CRLF document the token ends between the carriage return and the line feed, an offset whose position lies past the end of the line' % (kind, witness, witness + '\n'), pattern=pat)
+            else:
+                c.ok(R, {'token': kind, 'pattern': pat})
+    c.floor(R, 'token patterns examined', n, 5)
